@@ -10,6 +10,12 @@ parameter route — the general matcher is C01's subject).
 Follows the code after the `fix:` commit for K12c (a pattern without parameters reverses to itself).
 Core Lean only.
 -/
+open Lean in
+/-- `rb!"abc"` is the byte string `['a', 'b', 'c']` as a list literal (kernel-friendly, unlike `String.toList`) -/
+macro:max "rb!" s:str : term => do
+  let elems ← s.getString.toList.mapM fun c => `($(Syntax.mkCharLit c))
+  `(([$(elems.toArray),*] : List Char))
+
 namespace Rivaas.Reverse
 
 /-- `strings.Split(s, "/")` -/
